@@ -1,4 +1,76 @@
+//! vf-schema: check of property C13 — "what validation accepts, storage
+//! returns unchanged; nothing invalid gets in" (anda_db_schema + anda_db_derive).
+mod budget;
+mod derive_structs;
+mod generate;
+mod model;
+mod oracle;
+mod probes;
+mod upgrade;
+mod values;
+
+use vf_core::Runner;
+
 fn main() {
-    eprintln!("vf-schema: not built yet");
-    std::process::exit(2);
+    let prop = std::env::args().nth(1).unwrap_or_default();
+    if prop != "C13" {
+        eprintln!("usage: vf-schema C13 <quick|thorough|replay FILE> (got {prop:?})");
+        std::process::exit(2);
+    }
+    let mut r = Runner::from_env("C13", "exploration");
+    r.assume("the stored form of a document is cbor2::to_writer(&Document), read back with cbor2::from_reader::<DocumentOwned> + Document::try_from_doc (what anda_db::Collection does)");
+    r.assume("canon folds two serde-inherent ambiguities instead of reporting them: under Option(Json) a written Json(null) is CBOR null and reads back as Null; a plain non-finite float written to a Json position becomes JSON null (serde_json's own Value::from(f64))");
+    r.assume("not treated as invalid (the documentation is ambiguous): Null written to a required Json field (FieldType::validate: 'Json accepts any value'), a missing Json-typed member of a keyed map; a NaN below an undeclared position is accepted by validation and refused when the document is encoded for storage, which counts as a refusal");
+    r.assume("entry points are compared only on values both can express: the CBOR-borne ones (Document::try_from, FieldEntry::coerce, set_field_as) cannot tell I64(5) from U64(5), F32 from F64, a u8 sequence from Bytes or Json(x) from x, accept precision truncation into F32 as documented, and cannot carry byte strings / non-text keys into a Json position");
+    r.assume("generated sub-checks exclude by construction the two defect classes reproduced by finding_probes (see known_findings.json): Vector leaves below undeclared positions that pass the budget only as written; re-adding a removed member of a nested keyed map");
+    r.sub(
+        "roundtrip_valid",
+        "1-3 fields per document, FieldType trees from the grammar (depth <= 4), values built from the type in the declared variant or a documented read-back shape with boundary numerics; written through set_field / Document::try_from / FieldEntry::coerce / set_field_as, stored, read back, compared field by field with the harness's own fold canon(type, written), second round trip a fix-point; non-trivial = some field of type depth >= 2 whose stored shape differs from the declared variant read back",
+        (400_000, 12_000_000),
+        values::val_case_strategy,
+        values::roundtrip_valid,
+    );
+    r.sub(
+        "invalid_rejected",
+        "one mutation of a valid document (wrong variant at depth d, Null under non-Option, missing required key / field, extra key, tuple arity +-1, NaN, u16 overflow in a vector array, I64 overflow as U64, wildcard key variant); every entry point that can express the mutant must refuse it; non-trivial = a mutation was applied and the harness model confirms it is invalid",
+        (300_000, 9_000_000),
+        values::val_case_strategy,
+        values::invalid_rejected,
+    );
+    r.sub(
+        "accept_on_write_implies_accept_on_read",
+        "valid documents, one or two mutations, or values generated for another type; any write path that accepts must leave a readable, valid, canon-equal stored document, and set_field's verdict must equal the harness model of the documented rules; non-trivial = a mutated / foreign value was accepted by at least one write path",
+        (300_000, 9_000_000),
+        values::any_case_strategy,
+        values::accept_implies_readable,
+    );
+    r.sub_enum(
+        "budget_boundary",
+        "complete grid: 9 hosts (every kind of position whose type does not bound the shape: Json, Option(Json), Array([]), Map({}), wildcard maps, below keyed maps / tuples) x 4 budget dimensions (depth 64, nodes 16384, array length 4096, map entries 4096) x {limit-1, limit, limit+1} x {boundary in the written form, in the read-back form} x {written variants, read-back variants}; over-budget must be refused by every entry point, within-budget accepted, every accepted value readable; non-trivial = always",
+        true,
+        budget::grid(&[budget::Form::Written, budget::Form::ReadBack]),
+        |c, ctx| budget::check(c, ctx, false),
+    );
+    r.sub(
+        "derive_structs",
+        "8 fixed structs deriving AndaDBSchema / FieldTyped that cover every row of the documented Rust-type inference table; derived field types compared with the table; values generated per struct; T -> Document -> stored bytes -> Document -> T must reproduce T bit for bit, whole-document and field-by-field construction must agree; non-trivial = the stored shape of some field differs from its declared variant",
+        (150_000, 4_500_000),
+        derive_structs::strategy,
+        derive_structs::derive_structs,
+    );
+    r.sub(
+        "upgrade_chains",
+        "2-5 schema versions over 6 field names and 5 nested member names (keyed map as the field, below Array, below a wildcard map, below another keyed map): add optional / remove / re-add; before every step one documented-forbidden upgrade must be refused and leave the schema untouched; one document per version read under every later version: surviving fields and members equal, removed ones absent, re-added names empty, rewriting drops stale indexes; non-trivial = some document held a value a later version had to drop",
+        (80_000, 2_400_000),
+        upgrade::strategy,
+        upgrade::upgrade_chains,
+    );
+    r.sub_enum(
+        "finding_probes",
+        "fixed minimal inputs of the defect classes the generated sub-checks exclude by construction: Vector leaves below undeclared positions at the budget boundary (complete grid), re-adding a removed member of a nested keyed map (4 nestings x same / other type); non-trivial = always",
+        true,
+        probes::cases(),
+        probes::finding_probes,
+    );
+    r.finish();
 }
